@@ -870,6 +870,36 @@ fn c02(thorough: bool) -> Suite {
         false,
     ));
     ps.extend(buffer_ring_family("c02-bufring", Class::P));
+    // the blocked-sender list has to grow while its ring is wrapped: k served
+    // senders, then four pending sends of thread 0 and two blocked senders of
+    // other threads (a buffered channel's list starts with room for four);
+    // everything is then drained in one go and has to come out in the order
+    // of acceptance
+    for k in 1..=3usize {
+        let mut ops = vec![Op::TrySend];
+        for _ in 0..k {
+            ops.extend([Op::FSend(3), Op::Poll(3, 0), Op::TryRecv, Op::Poll(3, 0), Op::FDrop(3)]);
+        }
+        for s in 0..4u8 {
+            ops.extend([Op::FSend(s), Op::Poll(s, 0)]);
+        }
+        let pre = ops.len();
+        ops.extend([Op::Wait(0), Op::Wait(1), Op::Drain(VecState::Empty), Op::Drain(VecState::Empty)]);
+        let t0 = spec(&ops, A, A);
+        let t1 = spec(&[Op::Set(0), Op::SendT(3)], S, S);
+        let t2 = spec(&[Op::Set(1), Op::SendT(3)], S, S);
+        let mut p = mk(
+            format!("c02-grow/B(1)/P/{k}xsend-handover+4|SendT|SendT,drain"),
+            Cap::B(1),
+            Class::P,
+            A,
+            Conv::CloneOther,
+            vec![t0, t1, t2],
+            env(2, 1, None, Some(2)),
+        );
+        p.pre = pre;
+        ps.push(p);
+    }
     ps.extend(states_family("c02-states", Class::P, &[Cap::B(1), Cap::B(2)], &[env(2, 1, None, Some(3))], thorough));
     Suite {
         cfg: cfg(&[Oracle::Fifo], &[], false, false),
@@ -1315,7 +1345,9 @@ fn buffer_ring_family(name: &str, class: Class) -> Vec<Program> {
         let ns: &[usize] = match cap {
             Cap::B(2) => &[2],
             Cap::B(_) => &[3],
-            Cap::Unbounded => &[2, 3, 5],
+            // (nine values make the buffer grow twice)
+            Cap::Unbounded => &[2, 3, 5, 9],
+            Cap::Big => &[],
         };
         for &n in ns {
             for k in 0..=9usize {
@@ -1896,6 +1928,43 @@ fn c08(thorough: bool) -> Suite {
         &[env(2, 1, None, pb2(thorough))],
         true,
     ));
+    // a very large bound is a bound all the same: capacity(), is_full() and
+    // the admission of sends on bounded(3 000 000)
+    for (fl, ctor) in [(S, S), (A, A)] {
+        for ops in [
+            vec![Op::Cap(Side::S), Op::IsFull(Side::S), Op::TrySend, Op::TrySendRt, Op::Len(Side::R), Op::IsFull(Side::R), Op::Cap(Side::R), Op::TryRecv],
+            vec![Op::IsBounded(Side::S), Op::TrySendO, Op::TrySendORt, Op::Send, Op::Drain(VecState::Empty), Op::Cap(Side::R)],
+        ] {
+            let t = spec(&ops, fl, fl);
+            ps.push(mk(
+                format!("c08-big/Big/L/{}[{}]", if fl == S { "ss" } else { "aa" }, ops.iter().map(opname).collect::<Vec<_>>().join(",")),
+                Cap::Big,
+                Class::L,
+                ctor,
+                Conv::Clone,
+                vec![t],
+                env(2, 1, None, Some(1)),
+            ));
+        }
+    }
+    // an unbounded channel never refuses: 40 values through each non-blocking
+    // variant (the buffer's allocation starts at 32 places and has to grow)
+    for (fl, ctor) in [(S, S), (A, A)] {
+        for v in [Op::TrySend, Op::TrySendO, Op::TrySendRt, Op::TrySendORt] {
+            let mut ops = vec![v; 40];
+            ops.extend([Op::Len(Side::S), Op::IsFull(Side::S), Op::Drain(VecState::Tight), Op::Len(Side::R)]);
+            let t = spec(&ops, fl, fl);
+            ps.push(mk(
+                format!("c08-many/Unbounded/P/{}[40x{},drain]", if fl == S { "ss" } else { "aa" }, opname(&v)),
+                Cap::Unbounded,
+                Class::P,
+                ctor,
+                Conv::Clone,
+                vec![t],
+                env(2, 1, None, Some(1)),
+            ));
+        }
+    }
     // every non-blocking send variant against a buffer that is exactly full
     ps.extend(product(
         "c08-try",
@@ -2175,6 +2244,20 @@ fn c10(thorough: bool) -> Suite {
         &sync_only(3),
         &[(S, Conv::Clone)],
         &[env(2, 1, None, pb3(thorough))],
+        false,
+    ));
+    // buffered plain data (no drop glue) is gone after close, too
+    ps.extend(product(
+        "c10-plain",
+        &[
+            vec![vec![Op::TrySend, Op::TrySend, Op::Close(Side::S), Op::Len(Side::S), Op::IsEmpty(Side::S)], vec![Op::TrySend, Op::Set(0)]],
+            vec![vec![Op::Close(Side::R), Op::Len(Side::R), Op::IsTerm, Op::TryRecv], vec![Op::Wait(0), Op::Close(Side::R), Op::Len(Side::R), Op::IsEmpty(Side::R)]],
+        ],
+        &[Cap::B(1), Cap::B(2), Cap::Unbounded],
+        &[Class::P, Class::L, Class::B1],
+        &[vec![(S, S), (S, S)], vec![(A, A), (A, A)]],
+        &[(S, Conv::Clone)],
+        &[env(2, 1, None, pb2(thorough))],
         false,
     ));
     // not closed: one side merely went away (or nothing happened at all)
@@ -3155,6 +3238,34 @@ fn c17(thorough: bool) -> Suite {
             &[lock_spinning(env(par, 1, None, Some(2)), 14)],
             false,
         ));
+        if par == 1 {
+            // the single-core branch against a holder that stays inside for
+            // 200 of the waiter's yields
+            ps.extend(product(
+                "c17-2-longhold",
+                &[vec![vec![Op::LockL]], vec![vec![Op::LockL], vec![Op::LockT, Op::LockL]]],
+                &[Cap::B(0)],
+                &[Class::P],
+                &sync_only(2),
+                &[(S, Conv::Clone)],
+                &[stalled(lock_spinning(env(par, 1, None, Some(1)), 200_000), 200)],
+                false,
+            ));
+        }
+        if par == 2 {
+            // a very long hold (about a second of waiting): 13 000 000 failed
+            // attempts, 20 doublings of the burst length
+            ps.extend(product(
+                "c17-2-verylonghold",
+                &[vec![vec![Op::LockL]], vec![vec![Op::LockL]]],
+                &[Cap::B(0)],
+                &[Class::P],
+                &sync_only(2),
+                &[(S, Conv::Clone)],
+                &[stalled(lock_spinning(env(par, 1, None, Some(1)), 13_000_000), 200)],
+                false,
+            ));
+        }
         if par == 2 {
             // a long hold: the waiter goes through every round of the geometric
             // back-off (200 000 failed attempts: 13 doublings of the burst
